@@ -460,6 +460,7 @@ fn gen_input(rng: &mut Rng, s: &InSpec, special: bool) -> TV {
                     v
                 }
                 VC::Pos => (0..n).map(|_| 0.25 + 3.0 * rng.f32_unit()).collect(),
+                VC::SignedZeros => (0..n).map(|i| [0.0f32, -0.0, 1.0, -1.0][(i + rng.usize_below(2)) % 4]).collect(),
                 _ => (0..n)
                     .map(|_| {
                         if special && rng.chance(1, 4) {
